@@ -21,7 +21,30 @@ table='\n'.join(rows)
 na='\n'.join(f"* **{n['property_id']}** - {n['reason']}" for n in man['not_applicable']) or 'none'
 seeded=open(f'{V}/seeded/RESULTS.md').read() if os.path.exists(f'{V}/seeded/RESULTS.md') else '(none yet)'
 seeded=re.sub(r'^# .*\n','',seeded)
-sec=open(f'{V}/tools/design_sec9.md').read().replace('{{TABLE}}',table).replace('{{NA}}',na).replace('{{SEEDED}}',seeded)
+cost=['| check | quick: wall time, paths, solver queries | thorough (where it differs from quick) |','|---|---|---|']
+def parse(path):
+    out={}
+    if os.path.exists(path):
+        for l in open(path):
+            m=re.match(r'^(C\d\d) exit=(\d+) (\d+)s (?:RESULT .*?: (\d+) paths, (\d+) queries)?',l)
+            if m: out[m.group(1)]=m.groups()[1:]
+    return out
+q=parse(f'{V}/evidence/runall.quick.log')
+t={}
+for f in ('runall.thorough.part1.log','runall.thorough.part2.log'):
+    t.update(parse(f'{V}/evidence/'+f))
+for c in man['checks']:
+    i=c['property_id']
+    qs='-'
+    if i in q:
+        e,sec_,pa,qu=q[i]; qs=f"{sec_} s, {pa or '?'} paths, {qu or '?'} queries"+('' if e=='0' else f' (exit {e})')
+    if c['thorough_cmd'].endswith('quick'): ts='runs the quick tier'
+    elif i in t:
+        e,sec_,pa,qu=t[i]; ts=f"{sec_} s, {pa or '?'} paths"+('' if e=='0' else f' (exit {e})')
+    else: ts='-'
+    cost.append(f'| {i} | {qs} | {ts} |')
+costs='\n'.join(cost)
+sec=open(f'{V}/tools/design_sec9.md').read().replace('{{COSTS}}',costs).replace('{{TABLE}}',table).replace('{{NA}}',na).replace('{{SEEDED}}',seeded)
 d=open(f'{V}/DESIGN.md').read()
 B='<!-- BEGIN-ASBUILT -->'; E='<!-- END-ASBUILT -->'
 if B in d:
